@@ -37,7 +37,7 @@ LEVEL_NOTE = ("Trusted: model/suites.py and model/prf.py (written from the "
               "correctness against an independent implementation is C07 "
               "(OpenSSL).  ECC suites in SSLv3 are accepted (library and "
               "OpenSSL latitude).")
-BUDGET = {"quick": 90, "thorough": 1500}
+BUDGET = {"quick": 300, "thorough": 1500}
 CHUNK = 8
 PROBES = ["pos", "wrongkey", "byz_client", "byz_server", "aead_keys_checked",
           "mac_checked", "finished_checked", "exporter_checked",
